@@ -202,6 +202,15 @@ impl Property for C07 {
                                 for v in [u64::MAX >> 1, 1 << 62, 1 << 40, 1 << 32] {
                                     all.push(Mut::IndexCount(v));
                                 }
+                                // every check id (supported, SHA-256, unassigned), declared on both sides / one side
+                                for id in 0..16u8 {
+                                    all.push(Mut::BothFlags([0, id]));
+                                    all.push(Mut::HeaderFlags([0, id]));
+                                    all.push(Mut::FooterFlags([0, id]));
+                                }
+                                for f in [[1u8, spec.check], [0xFF, 0xFF], [0, 0x1A], [0, 0xFA]] {
+                                    all.push(Mut::BothFlags(f));
+                                }
                                 for v in [u32::MAX, 0x7FFF_FFFF, 0x8000_0000, 0x3FFF_FFFF, 0x4000_0000] {
                                     all.push(Mut::BackwardSize(v));
                                 }
@@ -358,7 +367,7 @@ impl Property for C07 {
         v
     }
     fn rule(&self) -> String {
-        "a fixed batch (an LZMA2 stream of 70000 chunks; a 20 MiB single-epoch LZMA2 history, raw and inside .xz) plus: proptest generates an input {valid LZMA / LZMA2 / XZ stream from the grammar generators; byte-level structured mutations of it (bit flips, byte sets, 4/8-byte field extremes 0 / 0xFF.. / 2^31 / 2^32-1, truncation, duplication, deletion, appended bytes); grammar-level near-valid XZ files with one sealed field set to an extreme (sizes up to 2^63-1, header size byte 0x40/0x80/0xC0/0xFF, record count 2^62, backward size 2^32-1 ...); uniformly random strings} and an entry point {lzma_decompress_with_options with every option shape and memlimit; lzma2_decompress; xz_decompress; Stream with arbitrary write/flush/get_output scripts, allow_incomplete on/off; raw::LzmaDecoder with lc<=8, lp<=4, pb<=4, dict_size in {0,1,2,7,300,4096,65536,2^31-1,2^31,2^32-1}, any unpacked size, any memlimit, decompress / reset(..) / decompress; raw::Lzma2Decoder incl. reuse; occasionally a decoder of another format}. Oracle: (a) the call returns Ok or Err - a panic (also integer overflow / division by zero in the overflow-checked build) is a violation; (b) it returns (sink capped at 32 MiB, so work is O(input + cap); a case running > 120 s is reported as non-termination); (c) peak growth of live heap during the call (counting allocator, non-storing sink) <= 16 MiB + 64 KiB x input length + 8 x bytes accepted by the sink. Non-trivial = the input passes the header checks of its format (reaches the payload loop); distinct = SipHash of (entry, input). Judged on the overflow-checked and on the release build.".into()
+        "a fixed batch (an LZMA2 stream of 70000 chunks; a 20 MiB single-epoch LZMA2 history, raw and inside .xz) plus: proptest generates an input {valid LZMA / LZMA2 / XZ stream from the grammar generators; byte-level structured mutations of it (bit flips, byte sets, 4/8-byte field extremes 0 / 0xFF.. / 2^31 / 2^32-1, truncation, duplication, deletion, appended bytes); grammar-level near-valid XZ files with one sealed field set to an extreme (sizes up to 2^63-1, header size byte 0x40/0x80/0xC0/0xFF, record count 2^62, backward size 2^32-1, every check id incl. SHA-256 and unassigned ones ...); uniformly random strings} and an entry point {lzma_decompress_with_options with every option shape and memlimit; lzma2_decompress; xz_decompress; Stream with arbitrary write/flush/get_output scripts, allow_incomplete on/off; raw::LzmaDecoder with lc<=8, lp<=4, pb<=4, dict_size in {0,1,2,7,300,4096,65536,2^31-1,2^31,2^32-1}, any unpacked size, any memlimit, decompress / reset(..) / decompress; raw::Lzma2Decoder incl. reuse; occasionally a decoder of another format}. Oracle: (a) the call returns Ok or Err - a panic (also integer overflow / division by zero in the overflow-checked build) is a violation; (b) it returns (sink capped at 32 MiB, so work is O(input + cap); a case running > 120 s is reported as non-termination); (c) peak growth of live heap during the call (counting allocator, non-storing sink) <= 16 MiB + 64 KiB x input length + 8 x bytes accepted by the sink. Non-trivial = the input passes the header checks of its format (reaches the payload loop); distinct = SipHash of (entry, input). Judged on the overflow-checked and on the release build.".into()
     }
     fn assumptions(&self) -> Vec<String> {
         vec![
